@@ -57,13 +57,18 @@ def design_mc(ctx):
     q = ctx.quick
     out = []
     # (A) the reference design: every clause, every input up to the bound
-    r = _mc(ctx, "ref", "never", "set", CLAUSE_INVS, maxreads=3, n=2, lens="{0, 1}", ploidies="{2}", nb=2) if q else \
-        _mc(ctx, "ref", "never", "set", CLAUSE_INVS, maxreads=3, n=3, lens="{0, 1}", ploidies="{2}", nb=2)
+    r = _mc(ctx, "ref", "never", "set", CLAUSE_INVS, maxreads=3, n=2, lens="{0, 1}", ploidies="{2}", nb=2)
     r["what"] = ("SplitAlg (one pass, writer[haplotype], Counter per class; no early exit, one histogram row per length) satisfies "
-                 "Routing/Unmodified/InputOrder/Exact/Partition/HistCounts/HistTotals for every list over "
-                 + ("2 names, <=3 reads x lengths {0,1}" if q else "3 names, <=3 reads x lengths {0,1}") + ", every valid ploidy-2 option record")
+                 "Routing/Unmodified/InputOrder/Exact/Partition/HistCounts/HistTotals for every list over 2 names, <=3 reads x "
+                 "lengths {0,1}, every valid ploidy-2 option record, every largest-block selection")
     out.append(r)
     if not q:
+        r = _mc(ctx, "ref_n3", "never", "set", CLAUSE_INVS, maxreads=3, n=3, lens="{1}", ploidies="{2}", nb=2)
+        r["what"] = "same, lists over 3 names, <=3 reads of one length"
+        out.append(r)
+        r = _mc(ctx, "ref_r4", "never", "set", CLAUSE_INVS, maxreads=4, n=2, lens="{0, 1}", ploidies="{2}", nb=2)
+        r["what"] = "same, lists over 2 names, <=4 reads x lengths {0,1}"
+        out.append(r)
         r = _mc(ctx, "ref3", "never", "set", CLAUSE_INVS, maxreads=2, n=2, lens="{0, 1}", ploidies="{3, 4}", nb=3)
         r["what"] = "same, ploidy 3 and 4, three blocks on two chromosomes, <=2 reads over 2 names"
         out.append(r)
@@ -146,6 +151,8 @@ def _rand(rng):
 
 def scenarios(ctx):
     q = ctx.quick
+    global EXHAUSTIVE
+    EXHAUSTIVE = not q      # quick writes only every 7th element of the tiny product (the design-level MC is exhaustive in both tiers)
     gen = os.path.join(ctx.workdir, "gen14.ndjson")
     cfg = tlc.write_cfg(os.path.join(ctx.workdir, "gen14.cfg"), consts={"TinySample": 7 if q else 1, "LatticeN": 5000 if q else 60000})
     rc, out, _ = tlc._java(["-config", cfg, "-workers", "1", "-metadir", tlc._metadir(), "-noGenerateSpecTE", "Gen_C14.tla"],
